@@ -16,12 +16,13 @@ VARIABLE hist
 mgvars == <<mv, hist>>
 
 MIntEn(m) == \/ MStartNextEn(m) \/ MStopNextEn(m)
-             \/ \E l \in MLis : MLRecvEn(m, l)
+             \/ \E l \in MLis : MLRecvEn(m, l) \/ MLDropEn(m, l)
              \/ \E w \in MWaiters : MWakeEn(m, w) \/ MReadEn(m, w)
 MIntStep(m) ==
   IF MStartNextEn(m) THEN MStartNext(m)
   ELSE IF MStopNextEn(m) THEN MStopNext(m)
   ELSE IF \E l \in MLis : MLRecvEn(m, l) THEN MLRecv(m, CHOOSE l \in MLis : MLRecvEn(m, l))
+  ELSE IF \E l \in MLis : MLDropEn(m, l) THEN MLDrop(m, CHOOSE l \in MLis : MLDropEn(m, l))
   ELSE IF \E w \in MWaiters : MWakeEn(m, w) THEN MWake(m, CHOOSE w \in MWaiters : MWakeEn(m, w))
   ELSE MRead(m, CHOOSE w \in MWaiters : MReadEn(m, w))
 RECURSIVE MSettle(_)
@@ -45,6 +46,7 @@ MEnvEn(m, a) ==
     [] a[1] = "StopRet"  -> StopRetEn(m, a[2])
     [] a[1] = "Deliver"  -> DeliverEn(m, a[2])
     [] a[1] = "AddML"    -> AddMLEn(m, a[2])
+    [] a[1] = "RemoveML" -> RemoveMLEn(m, a[2]) /\ m.mlq[a[2]] = <<>>
     [] a[1] = "Await"    -> MAwaitEn(m, a[2])
 MEnvOp(m, a) ==
   CASE a[1] = "MStart"   -> MStartCall(m)
@@ -56,6 +58,7 @@ MEnvOp(m, a) ==
     [] a[1] = "StopRet"  -> StopRet(m, a[2], a[3])
     [] a[1] = "Deliver"  -> Deliver(m, a[2])
     [] a[1] = "AddML"    -> AddML(m, a[2])
+    [] a[1] = "RemoveML" -> RemoveML(m, a[2])
     [] a[1] = "Await"    -> MAwait(m, a[2])
 
 MGInit == mv = MInitRec /\ hist = << <<"New", NS, "">> >>
@@ -65,7 +68,7 @@ MGNext == \/ MGStep(<<"MStart", 0, "">>) \/ MGStep(<<"MStop", 0, "">>) \/ MGStep
                             \/ \E e \in {"none", "estart"} : MGStep(<<"StartRet", s, e>>)
                             \/ \E e \in {"none", "erun"} : MGStep(<<"RunRet", s, e>>)
                             \/ \E e \in {"none", "estop"} : MGStep(<<"StopRet", s, e>>)
-          \/ \E l \in MLis : MGStep(<<"AddML", l, "">>)
+          \/ \E l \in MLis : MGStep(<<"AddML", l, "">>) \/ MGStep(<<"RemoveML", l, "">>)
           \/ \E w \in MWaiters : MGStep(<<"Await", w, "">>)
 \* terminating model: stutter at the end so that -simulate traces reach the requested depth
 MGDone == ~(ENABLED MGNext) /\ UNCHANGED mgvars
